@@ -30,7 +30,7 @@ class C18(PoolCheck):
     LEVEL = 'exploration'
     GROUP = 1
     CASE_TIMEOUT = 180.0
-    FAMILIES = ('xsitype', 'keys', 'ids', 'fixed', 'subst', 'wild', 'assert11', 'mixed', 'shadow')
+    FAMILIES = ('xsitype', 'keys', 'ids', 'fixed', 'subst', 'wild', 'assert11', 'mixed', 'shadow', 'dtd')
     RULE = ("case = (family, scenario [built | racing_build | shared_lazy_resource], 2-4 thread programs of 1-3 "
             "operations each, schedule policy [uniform switching p in {0.001,0.01,0.05,0.2} | PCT d in {1,2,3} | "
             "targeted switching on entry to a random subset of shared-state functions | run-to-completion "
@@ -76,11 +76,13 @@ class C18(PoolCheck):
 
     def gen_case(self, rng, index):
         # half of the runs use the families whose validation touches state shared between calls
-        hot = [k for k in self.keys if k.startswith(('xsitype/', 'fixed/'))]
+        hot = [k for k in self.keys if k.startswith(('xsitype/', 'fixed/', 'dtd/'))]
         key = rng.choice(hot) if hot and rng.random() < 0.5 else rng.choice(self.keys)
         e = self.entries[key]
         m = [op for op in histories.menu(e)]
         scenario = rng.choice(['built', 'built', 'racing_build', 'racing_build', 'shared_lazy'])
+        if getattr(e.family, 'defused', False) and scenario == 'shared_lazy':
+            scenario = 'built'      # every call builds its own defused resource
         nthreads = rng.choice([2, 2, 3, 4])
         # small colliding pools: with 2 documents every thread pair works on the same or the sibling document
         pool = rng.sample(range(len(e.docs)), min(len(e.docs), rng.choice([2, 2, 3, 4])))
